@@ -495,6 +495,37 @@ def format_calls_ex(e):
     return out
 
 
+def format_calls_resolved(e, lets=None):
+    """format_calls_ex with the placeholders that are fixed text folded into the literal pieces: a string / char constant
+    (`{PREFIX}` with `const PREFIX: &str = "so"`) or literal, directly or through an immutable local (`lets`, see local_inits);
+    a placeholder that names such a local otherwise gets the local's initialiser as its expression"""
+    out = []
+    for pcs in format_calls_ex(e):
+        res = []
+        for pc in pcs:
+            if pc[0] == "arg":
+                a = dict(pc[1])
+                x = peel(a["e"])
+                hops = 0
+                while lets and x.get("k") == "Path" and x.get("res_kind") == "Local" and x.get("res") in lets and hops < 4:
+                    x = peel(lets[x["res"]])
+                    hops += 1
+                while x.get("k") in ("AddrOf", "DropTemps", "Use") or (x.get("k") == "Unary" and x.get("op") == "Deref"):
+                    x = peel(x.get("e") or x.get("a"))
+                lv = lit_value(x)
+                if isinstance(lv, str) and a["how"] == "display" and not a["flags"]:
+                    pc = ("lit", lv)
+                else:
+                    a["e"] = x
+                    pc = ("arg", a)
+            if pc[0] == "lit" and res and res[-1][0] == "lit":
+                res[-1] = ("lit", res[-1][1] + pc[1])
+            else:
+                res.append(pc)
+        out.append(res)
+    return out
+
+
 def format_pieces(e):
     """All format templates (and plain literal format strings) inside expression e:
     list of piece lists."""
